@@ -2,6 +2,7 @@ CFG = {
     "lean_targets": ["Norad.Props.C06", "Norad.Props.C06Source"],
     "audit": "Norad/Audit/C06.lean",
     "extract": "layer_ops",
+    "search_timeout": 150,
     "rule": ("operation histories on Font::layers / Layer through the public API: exhaustive over all sequences of length <= 3 (quick) / 4 (thorough) "
              "from an 11-operation alphabet on clashing names, plus random histories (length <= 25 quick / 120 thorough) of the 13 operations on "
              "name pools built to clash (case variants, '_' variants, reserved words, dots, 260-byte names, invalid names), starting from Font::new() "
